@@ -1476,6 +1476,13 @@ func FunExpr(query *Query, current Map, expr *sqlparser.FuncExpr, opts ...ExprOp
 				return nil, e
 			}
 			go func() {
+				defer func() {
+					if r := recover(); r != nil {
+						if query.options.errors != nil {
+							query.options.errors(asError(r))
+						}
+					}
+				}()
 				_, err := function(query, current, nil, slice)
 				if err != nil {
 					if query.options.errors != nil {
@@ -1496,13 +1503,20 @@ func FunExpr(query *Query, current Map, expr *sqlparser.FuncExpr, opts ...ExprOp
 			}
 			query.wg.Add(1)
 			go func() {
+				defer query.wg.Done()
+				defer func() {
+					if r := recover(); r != nil {
+						if query.options.errors != nil {
+							query.options.errors(asError(r))
+						}
+					}
+				}()
 				_, err := function(query, current, nil, slice)
 				if err != nil {
 					if query.options.errors != nil {
 						query.options.errors(err)
 					}
 				}
-				query.wg.Done()
 			}()
 			return Ommit(true), nil
 		}
